@@ -451,8 +451,55 @@ def classify(T, k, c):
     return T
 
 
+def check_cli_short(case, R=None):
+    """The shorthand `-T xorcomp M d` / `-T majcomp M d`: the compression
+    graph is drawn at random by the tool, so the result must equal the library
+    transformation for SOME bipartite graph with N left vertices of degree d
+    and M right vertices -- all of them are tried."""
+    T, M, d = case['T'], case['M'], case['d']
+    out = []
+    tmpdir = tempfile.mkdtemp(prefix='c05_')
+    try:
+        path = os.path.join(tmpdir, 'f.cnf')
+        with open(path, 'w') as f:
+            f.write('p cnf %d %d\n' % (case['nv'], len(case['cls'])))
+            for cl in case['cls']:
+                f.write(' '.join(str(x) for x in list(cl) + [0]) + '\n')
+        try:
+            G = run_cli(['cnfgen', '-q', '--seed', str(case.get('seed', 1)), 'dimacs', path,
+                         '-T', T, str(M), str(d)])
+        except BaseException as e:
+            if isinstance(e, KeyboardInterrupt):
+                raise
+            return [{'key': 'cli:%s:shorthand:exception:%s' % (T, type(e).__name__),
+                     'what': str(e)[:200], 'case': dict(case)}]
+        got = (G.number_of_variables(), sorted(tuple(sorted(cl)) for cl in G))
+        N = case['nv']
+        rights = list(itertools.combinations(range(1, M + 1), d))
+        tried = 0
+        for choice in itertools.product(rights, repeat=N):
+            edges = [(u + 1, v) for u, nb in enumerate(choice) for v in nb]
+            F = scope.mk_cnf(N, [tuple(cl) for cl in case['cls']])
+            H = transform(T, None, None, F, (N, M, edges))
+            tried += 1
+            if (H.number_of_variables(), sorted(tuple(sorted(cl)) for cl in H)) == got:
+                if R is not None:
+                    R.stats['cli_shorthand_explained'] += 1
+                return out
+        out.append({'key': 'cli:%s:shorthand:not-the-compression-by-any-graph' % T,
+                    'what': '`-T %s %d %d` on %r gives %d variables, clauses %r: equal to the library '
+                            'compression for none of the %d graphs with %d left vertices of degree %d' %
+                            (T, M, d, case['cls'], got[0], got[1][:6], tried, N, d),
+                    'case': dict(case)})
+        return out
+    finally:
+        shutil.rmtree(tmpdir, ignore_errors=True)
+
+
 def check_case(case, R=None):
     """Violations of one (F, transformation, parameters) instance."""
+    if case.get('kind') == 'cli-short':
+        return check_cli_short(case, R)
     kind = case.get('kind', 'lib')
     T = case['T']
     k = case.get('k')
@@ -714,6 +761,13 @@ def plan(tier, seed):
                     jobs.append(('X', {'kind': 'cli', 'T': T, 'k': None, 'c': None, 'nv': nv,
                                        'cls': cl, 'via': 'complete',
                                        'graph': [nv, Rn, [list(e) for e in pairs]]}))
+    # ---- the shorthand with a random graph ----------------------------------------
+    for T in COMP:
+        for nv, cl in [(2, [[1, -2], [2]]), (3, [[1, 2], [-1, -3], [3]]), (1, [[-1]]), (2, [[1], [-2]])]:
+            for (M, d) in ((2, 1), (2, 2), (3, 2), (3, 3), (3, 1)):
+                for sd in (1, 2):
+                    jobs.append(('X', {'kind': 'cli-short', 'T': T, 'nv': nv, 'cls': cl, 'M': M, 'd': d,
+                                       'seed': sd, 'k': None, 'c': None}))
     # ---- VERIF_SEED rotates a few extra mid-size instances ------------------
     rng = _random.Random(1000003 * (seed + 1))
     cat = [(nv, cls) for nv, cls in scope.small_cnf_catalogue() if nv >= 3]
